@@ -7,6 +7,102 @@ HERE = os.path.dirname(os.path.dirname(os.path.abspath(__file__)))
 
 # id -> (technique, level text, level note, design ref)
 CHECKS = {
+    'C01': (
+        'reference-model monitor: MuJoCo xpos/xquat/mj_objectVelocity vs '
+        'kinematics.forward on generated models and states',
+        'Every link pose of generated forests (1-6 links, any stack of '
+        'hinge/slide joints, arbitrary frames) is compared with MuJoCo at 8 '
+        'states per model; world velocities are compared on the claimed link '
+        'class and classified (known finding K1) elsewhere.',
+        'Trusts MuJoCo 3.13 mj_forward / mj_objectVelocity on the same XML.',
+        'DESIGN.md §2 C01'),
+    'C02': (
+        'reference-model monitor: MuJoCo mj_fullM, qfrc_*, mj_step vs the '
+        'generalized pipeline terms and step',
+        'Mass matrix (symmetric PD, equal), bias, passive, actuation, smooth '
+        'force and the constraint-free step are compared with MuJoCo on '
+        'generated models incl. slides on rotated bodies and mixed stacks.',
+        'Trusts MuJoCo 3.13; step compared only when no constraint row is '
+        'active in either engine (counted).',
+        'DESIGN.md §2 C02'),
+    'C03': (
+        'relational monitor: reverse-mode gradient vs central finite '
+        'differences of the same jitted float64 loss; finiteness at singular '
+        'inputs and resting contacts',
+        'Gradients through 1-2 (quick) / 1-5 (thorough) steps of the three '
+        'pipelines are checked finite at generic and singular states (zero '
+        'pose/velocity, axis-aligned rotations, resting contact, float32) and '
+        'equal to finite differences away from switching.',
+        'Finite differences of the real loss are the reference; kinks between '
+        'stencil points are detected and counted.',
+        'DESIGN.md §2 C03'),
+    'C04': (
+        'conservation invariant on every step event (total momentum) + rest '
+        'invariant, on generated free-rooted models and collision scenes',
+        'Momentum balance is asserted on every step of spring/positional '
+        'histories (also diverging ones) computed two ways (state COM '
+        'velocities; public link state + MuJoCo masses); a resting system must '
+        'stay at rest in all three pipelines (K3 classifies the excluded '
+        'stack classes).',
+        'Round-off scale is the momentum magnitude; collision scenes count '
+        'only when the contact acted (twin run without collisions).',
+        'DESIGN.md §2 C04'),
+    'C05': (
+        'relational monitors over pairs of executions: rigid transform of the '
+        'scene, sibling order permutation, merged vs solo components',
+        'The same real pipelines are run on the transformed / permuted / '
+        'merged representation and results are compared by name to 1e-7 '
+        '(observed 1e-12).',
+        'Diverging trajectories and generalized solver-active states are '
+        'counted, not compared.',
+        'DESIGN.md §2 C05'),
+    'C06': (
+        'relational monitors (twin model without collisions / limits) + '
+        'trajectory invariants (push-only, resting height, rebound ratio)',
+        'Separated geometry and unreached limits must leave the step '
+        'unchanged (guards computed from observed distances / margins); a '
+        'penetrating body is only pushed out; drops come to rest at the '
+        'closed-form height; rebounds match the configured elasticity.',
+        'Closed-form penetration and rest heights; applicability guards are '
+        'counted.',
+        'DESIGN.md §2 C06'),
+    'C07': (
+        'relational monitors: vmapped vs solo, jit vs eager, and the same '
+        'batch with all other members changed (bitwise), for pipelines and '
+        'wrapped environments',
+        'Batch members of generated models, of the scripted environment and '
+        'of two real environments on three backends are compared with solo '
+        'runs and must be bitwise unchanged when other members change, incl. '
+        'across episode ends; domain-randomised members equal a solo env '
+        'built from their system.',
+        'Solver-active generalized members are compared at solver tolerance.',
+        'DESIGN.md §2 C07'),
+    'C08': (
+        'round-trip monitor on forward/world_to_joint/inverse + '
+        'reported-vs-recomputed coordinates after spring/positional steps',
+        'q (and qd for free links / single hinges) must round-trip on the '
+        'claimed orthogonal invertible stacks; all other classes are compared '
+        'and classified (K2a/b/c); reported (q, qd) after a step must equal '
+        'the inverse image of reported (x, xd).',
+        'Classification by stack signature from the generator spec.',
+        'DESIGN.md §2 C08'),
+    'C12': (
+        'order-of-convergence invariant: four-point Richardson extrapolation '
+        'of the energy / momentum drift to dt -> 0, energy from MuJoCo',
+        'For conservative generated models the drift over a fixed horizon at '
+        'dt, dt/2, dt/4, dt/8 must extrapolate to zero (<= 2% of the largest '
+        'drift; observed <= 0.2% over 420 models).',
+        "Energy and momentum are MuJoCo's at brax's (q, qd).",
+        'DESIGN.md §2 C12'),
+    'C16': (
+        'trajectory invariants on wrapped rollouts of every registered '
+        'environment/backend: sizes, done at reset, determinism, finiteness, '
+        'unit quaternions (float32)',
+        'A seed-rotated third (quick) or all (thorough) of the 33 env x '
+        'backend combinations are rolled out under uniform and bang-bang '
+        'actions; every step is checked.',
+        'float32 as shipped; unit quaternion tolerance 1e-4.',
+        'DESIGN.md §2 C16'),
     'C09': (
         'algebraic-law monitors on the real functions: exact integer-lattice '
         'evaluation (Schwartz-Zippel) + float64 residuals',
